@@ -237,7 +237,7 @@ theorem C20_merge_plurals_keeps_name (orc : Oracle) (locale : Str) (fuel : Nat) 
     (w : List Warning) (h : Plurals.mergePlurals orc locale fuel path l = .ok (l', w)) : l'.name = l.name :=
   mergePlurals_name orc locale fuel path l l' w h
 
-theorem C20_resolve_keeps_names (L : List Str) (orc : Oracle) (dflt : Str) (fuel : Nat)
+theorem C20_resolve_keeps_names (L : List Str) (orc : Oracle) (dflt : Foreign.Fallbacks) (fuel : Nat)
     (paths : List (Str × KeyPath)) (w w' : World) (h : Foreign.resolveAll orc dflt fuel paths w = .ok w')
     (hok : ∀ ns ∈ w.nss, ns.locales.map Loc.name = L) : ∀ ns ∈ w'.nss, ns.locales.map Loc.name = L :=
   resolveAll_names L orc dflt fuel paths w w' h hok
